@@ -21,6 +21,25 @@ SAFE_AMP = ["a & b", "x &", "1 &2"]                    # '&' + space / end / dig
 URL_AMP = "?a=b&c=d"
 
 
+# foreign islands: lower-case and case-adjusted SVG element names with explicit end tags, self-closing syntax, an HTML
+# integration point (foreignObject) with HTML inside, MathML token elements
+SVG_ISLANDS = [
+    '<svg viewBox="0 0 2 2" width="2" height="2"><circle cx="1" cy="1" r="1"/><title>t</title></svg>',
+    '<svg width="4" height="4"><defs><linearGradient id="g"><stop offset="0" stop-color="red"/></linearGradient></defs>'
+    '<rect width="4" height="4" fill="url(#g)"/></svg>',
+    '<svg width="4" height="4"><clipPath id="c"><rect width="2" height="2"/></clipPath><g clip-path="url(#c)"><path d="M0 0h4v4z"/></g></svg>',
+    '<svg width="9" height="9"><foreignObject width="9" height="9"><span>x</span></foreignObject></svg>',
+    '<svg width="9" height="9"><defs><path id="p" d="M0 5h9"/></defs><text><textPath href="#p">curve</textPath></text></svg>',
+    '<svg width="4" height="4"><radialGradient id="r"><stop offset="1"/></radialGradient><circle r="2" fill="url(#r)"></circle></svg>',
+    '<svg width="4" height="4"><filter id="f"><feGaussianBlur stdDeviation="1"></feGaussianBlur></filter><desc>d</desc></svg>',
+]
+MATH_ISLANDS = [
+    "<math><mi>x</mi><mo>+</mo><mn>1</mn></math>",
+    "<math><mrow><msup><mi>x</mi><mn>2</mn></msup><mo>=</mo><mfrac><mn>1</mn><mn>2</mn></mfrac></mrow></math>",
+    "<math><mtext>speed</mtext><mspace width=\"1em\"/><ms>s</ms></math>",
+]
+
+
 class Gen(object):
     def __init__(self, rng, amp=False, cap=False):
         self.rng = rng
@@ -124,9 +143,9 @@ class Gen(object):
             elif k < 0.93:
                 out.append(self.void("wbr", []))
             elif k < 0.96:
-                out.append('<svg viewBox="0 0 2 2" width="2" height="2"><circle cx="1" cy="1" r="1"/><title>t</title></svg>')
+                out.append(r.choice(SVG_ISLANDS))
             else:
-                out.append("<math><mi>x</mi><mo>+</mo><mn>1</mn></math>")
+                out.append(r.choice(MATH_ISLANDS))
         return " ".join(out)
 
     # --- flow ---
